@@ -154,7 +154,9 @@ InvNoOrphan == IF CrashNoOrphan THEN TRUE ELSE (OrphanIsF4Class /\ Known("F4 cra
 \* as the validated trace - gigabytes for the thorough tier, and cut at an arbitrary point.
 Chk(name, ok) == IF ok THEN TRUE ELSE Print(<<"INVFAIL", name, l>>, FALSE)
 TNext == TStep /\ Chk("InvCrashSafe", InvCrashSafe') /\ Chk("InvDurable", InvDurable') /\ Chk("InvNoOrphan", InvNoOrphan')
-TNextCrash == TStep /\ (IF faulted' THEN TRUE ELSE Chk("InvCrashSafe", InvCrashSafe') /\ Chk("InvDurable", InvDurable'))
+\* after an injected fault the crash-safety of the image is a double-fault question (see DESIGN 12.4); that a commit
+\* which RETURNED OK is durable holds whatever failed before or after it
+TNextCrash == TStep /\ Chk("InvDurable", InvDurable') /\ (IF faulted' THEN TRUE ELSE Chk("InvCrashSafe", InvCrashSafe'))
 
 TInit == SInit /\ l = 1 /\ callIdx = 1 /\ ackedIdx = 1 /\ regs = {} /\ metaSegs = {} /\ segOf = <<>> /\ building = {} /\ faulted = FALSE
 TSpec == TInit /\ [][TNext]_tvars
